@@ -63,7 +63,28 @@ Fragment (C construct -> Lean)
                overflow: it stays below a bound of its own type) and has no value after the loop;
                `for(;;) { ..; if (c) return e; }` as the last statement -> `foreverM fuel body` (the function
                gets a `fuel` parameter and returns `Option`, `none` = fuel exhausted);  `return f(..)` of such a
-               function propagates `none`;  `return e;` only as the last statement
+               function propagates `none`;  `return e;` as the last statement, or early as
+               described under "normal forms"
+  normal forms (shape-insensitive readings; each is exact, none looks at more than the construct it names)
+               * cached locals, only in files registered with `cache_locals` (anneal_quso.c): an `int` / `long` local
+                 that is assigned exactly once from a call-free expression `e`, is used only in the statements after
+                 that assignment in the same block, and nothing `e` mentions is assigned there (writes through
+                 subscripts and by callees count) is read as `e` at each use — `start = index[i]; .. J[start + j]`,
+                 `neighbor = neighbors[..]; state[neighbor]` and the text without the local give the same definition;
+                 a pointer local `p = a + e` under the same conditions is a row base: `p[j]` is the checked access
+                 `a[e + j]` (the sum formed with `ladd`), every other use of `p` is Untranslatable.  The definition
+                 itself emits nothing: a cached load is checked where its value is used, not where it is hoisted to
+                 (and that `a + e` is inside the array is checked at the accesses only).  A local that fails a
+                 condition (a second assignment, a write to something `e` mentions before a use — a load hoisted
+                 across a store —, a use outside the region) stays an ordinary local; `double` locals always do
+                 (`Fn.find_cached`)
+               * `if (c) { ..; return e; }` followed by more statements at function level = `if (c) {..} else {rest}`
+                 (`Fn.tail`; not in a function that allocates)
+               * `if (c) continue;` directly among the statements of a `for` body = `if (c) {} else {rest of the body}`
+               * a comparison / `!` / `&&` / `||` stored in or returned as an `int` = `if b then 1 else 0`; `if (n)` on
+                 an int is `n ≠ 0`
+               * a `static` function of the file that is not in the registry (no loop, no allocation) is translated on
+                 demand and inlined at each call as `(fun params => body) args` (`Fn.helper`)
   memory       `(T*)malloc(n * sizeof(T))`, `(T*)malloc(sizeof(T))` -> `malloc n size` (a local pointer only at
                function level and only while it has no value);  `free(p)`, `free(a[i])` -> `.free`;
                `x = (T*)realloc(x, n * sizeof(T))` -> `x.realloc n size`;  at the function's return
@@ -76,7 +97,7 @@ Fragment (C construct -> Lean)
   not modelled distinct pointer parameters are distinct arrays (no aliasing — the callers pass separately
                allocated buffers), as in the hand-written model; the order of evaluation C leaves unspecified is
                taken left to right (the operands here have no side effects other than a failing read)
-  everything else (while, do, switch, break, continue, goto, `,`, assignment inside an expression, `x++` as a
+  everything else (while, do, switch, break, any other `continue`, goto, `,`, assignment inside an expression, `x++` as a
   value, signed `/ % << >>`, `==` on double, pointer arithmetic other than subscripts, globals, function pointers,
   struct values other than the generator state, ...) -> Untranslatable, listed in the manifest
 
@@ -126,7 +147,7 @@ FILES = [
          externs={"ldexp": dict(lean="X.dldexp", writes=[], ret="double", monadic=False)},
          functions=["rand_seed", "rand_init", "rand_double", "rand_int"]),
     dict(file=SRC + "anneal_quso.c", functions=["compute_flip_dE", "recompute_flip_dE", "single_anneal_quso",
-                                                "quso_value", "anneal_quso"], **KERNEL_CTX),
+                                                "quso_value", "anneal_quso"], cache_locals=True, **KERNEL_CTX),
     dict(file=SRC + "anneal_puso.c", functions=["puso_subgraph_value", "single_anneal_puso", "puso_value",
                                                 "anneal_puso"], **KERNEL_CTX),
 ]
@@ -353,6 +374,8 @@ class Fn:
         self.extra_params = []       # (name, lean type) for indeterminate struct locals
         self.fuel = False
         self.loop_counter = {}
+        self.cached = {}             # single-assignment locals read as their defining expression (find_cached)
+        self.early = False           # the function has an early `return`
 
     # ---- helpers
 
@@ -407,6 +430,8 @@ class Fn:
         self.fail("lvalue of kind %s" % k, n)
 
     def callee_writes(self, name, call):
+        if self.done.get("static %s::%s" % (self.cfg.get("file"), name)):
+            return self.done["static %s::%s" % (self.cfg.get("file"), name)]["writes"]
         if name in ("free", "realloc"):
             return [0]
         if name == "malloc":
@@ -457,12 +482,149 @@ class Fn:
         if not isinstance(n, dict) or not n:
             return acc
         if n.get("kind") == "DeclRefExpr" and n["referencedDecl"].get("kind") in ("VarDecl", "ParmVarDecl"):
+            c = self.cached.get(n["referencedDecl"]["name"])
+            if c is not None:          # a use of a cached local is a use of what its defining expression mentions
+                if c["kind"] == "row":
+                    acc.add(c["base"])
+                return self.mentioned(c["rhs"], acc)
             acc.add(n["referencedDecl"]["name"])
         if n.get("kind") == "VarDecl":
             acc.add(n["name"])
         for c in kids(n):
             self.mentioned(c, acc)
         return acc
+
+    # ---- cached locals (loop-invariant loads kept in a local, row base pointers)
+
+    def row_base(self, base):
+        """the cached-row record when `base` (the pointer operand of a subscript) is a row-base local"""
+        b = strip_parens(base)
+        while b.get("kind") == "ImplicitCastExpr" and b["castKind"] in ("NoOp", "BitCast"):
+            b = strip_parens(kids(b)[0])
+        if b.get("kind") == "ImplicitCastExpr" and b["castKind"] == "LValueToRValue":
+            v = strip_parens(kids(b)[0])
+            if v.get("kind") == "DeclRefExpr":
+                c = self.cached.get(v["referencedDecl"]["name"])
+                if c is not None and c["kind"] == "row":
+                    return c
+        return None
+
+    def ptr_plus(self, rhs):
+        """`a + e` with `a` a pointer variable -> (a, e), else None"""
+        r = strip_parens(rhs)
+        while r.get("kind") == "ImplicitCastExpr" and r["castKind"] in ("NoOp", "BitCast"):
+            r = strip_parens(kids(r)[0])
+        if r.get("kind") != "BinaryOperator" or r.get("opcode") != "+":
+            return None
+        a, e = kids(r)
+        a = strip_parens(a)
+        while a.get("kind") == "ImplicitCastExpr" and a["castKind"] in ("NoOp", "BitCast"):
+            a = strip_parens(kids(a)[0])
+        if not (a.get("kind") == "ImplicitCastExpr" and a["castKind"] == "LValueToRValue"):
+            return None
+        v = strip_parens(kids(a)[0])
+        if v.get("kind") != "DeclRefExpr" or v["referencedDecl"].get("kind") not in ("VarDecl", "ParmVarDecl"):
+            return None
+        return v["referencedDecl"]["name"], e
+
+    def count_refs(self, n, name):
+        if not isinstance(n, dict) or not n:
+            return 0
+        c = 1 if (n.get("kind") == "DeclRefExpr" and n["referencedDecl"].get("name") == name) else 0
+        return c + sum(self.count_refs(x, name) for x in kids(n))
+
+    def find_cached(self, body, params):
+        """Locals that only cache a value: an integer local (`int`, `long`; a `double` local always stays an
+        ordinary local — the models name them: `T`, `dE`, `subgraph_energy`) or a pointer local that is
+        assigned exactly once in the whole function — by its initialiser or by a plain `x = e;` statement that
+        is a direct child of a block — where `e` has no call and no assignment (for a pointer: `e` is `a + e1`
+        with `a` a pointer variable), every use of `x` lies in the statements that follow the definition in the
+        same block, and none of the variables `e` mentions (arrays included: a write through a subscript or by
+        a callee counts) is assigned in those statements.  Then at every use `x` equals `e` evaluated there, and
+        the use is translated as `e` (a pointer `x[j]` as the checked access `a[e1 + j]`); the definition itself
+        emits nothing (see `def_row`).  Anything else — a second
+        assignment, `x++`, `&x`, a use outside the region, an intervening write to something `e` mentions — leaves
+        `x` an ordinary local."""
+        decls, defs, bad = {}, {}, set()
+
+        def lhs_var(n):
+            l = strip_parens(kids(n)[0])
+            return l["referencedDecl"]["name"] if l.get("kind") == "DeclRefExpr" else None
+
+        def scan(n):                    # positions that are not direct children of a block
+            if not isinstance(n, dict) or not n:
+                return
+            k = n.get("kind")
+            if k == "CompoundStmt":
+                return block(n)
+            if k == "DeclStmt":
+                for d in kids(n):
+                    if d.get("kind") == "VarDecl":
+                        bad.add(d["name"])
+            if k in ("BinaryOperator", "CompoundAssignOperator") and (k == "CompoundAssignOperator" or n.get("opcode") == "="):
+                v = lhs_var(n)
+                if v:
+                    bad.add(v)
+            if k == "UnaryOperator" and n.get("opcode") in ("++", "--", "&"):
+                try:
+                    bad.add(self.root_var(kids(n)[0]))
+                except Untranslatable:
+                    pass
+            for c in kids(n):
+                scan(c)
+
+        def block(comp):
+            for i, s in enumerate(kids(comp)):
+                k = s.get("kind")
+                if k == "DeclStmt":
+                    for d in kids(s):
+                        if d.get("kind") != "VarDecl":
+                            continue
+                        if d["name"] in decls or d["name"] in params:
+                            bad.add(d["name"])
+                        decls[d["name"]] = d
+                        if kids(d):
+                            defs.setdefault(d["name"], []).append((comp, i, kids(d)[-1]))
+                            scan(kids(d)[-1])
+                elif k == "BinaryOperator" and s.get("opcode") == "=" and lhs_var(s):
+                    defs.setdefault(lhs_var(s), []).append((comp, i, kids(s)[1]))
+                    scan(kids(s)[1])
+                else:
+                    scan(s)
+        block(body)
+        out = {}
+        for name, d in decls.items():
+            if name in bad or len(defs.get(name, [])) != 1:
+                continue
+            comp, i, rhs = defs[name][0]
+            try:
+                t = self.cty(d)
+            except Untranslatable:
+                continue
+            if t in ("int", "long"):
+                rec = dict(kind="val", name=name, cty=t, rhs=rhs)
+                ment = self.mentioned(rhs)
+            elif is_ptr(t) and t[1] in ("int", "long", "double"):
+                pp = self.ptr_plus(rhs)
+                if pp is None:
+                    continue
+                rec = dict(kind="row", name=name, cty=t, base=pp[0], rhs=pp[1])
+                ment = self.mentioned(pp[1]) | {pp[0]}
+            else:
+                continue
+            if name in ment or self.has_call(rhs) or self.assigned(rhs):
+                continue
+            region = kids(comp)[i + 1:]
+            inside = sum(self.count_refs(s, name) for s in kids(comp)[i:])
+            if inside != self.count_refs(body, name):
+                continue
+            asg = set()
+            for s in region:
+                asg |= self.assigned(s)
+            if ment & asg:
+                continue
+            out[name] = rec
+        return out
 
     # ---- expressions: return (lean term, C type); side computations are emitted into `em`
 
@@ -497,6 +659,8 @@ class Fn:
             self.fail("variable `%s` is not a parameter or local of the function (global?)" % name, node)
         if not v.bound:
             self.fail("read of `%s`, which may be uninitialised here" % name, node)
+        if self.cached.get(name, {}).get("kind") == "row":
+            self.fail("use of the row base `%s` other than a subscript read `%s[e]`" % (name, name), node)
         if v.loopvar:
             return "(%s : Int)" % mangle(name), v.cty
         return mangle(name), v.cty
@@ -530,9 +694,31 @@ class Fn:
         if k == "DeclRefExpr":
             if n["referencedDecl"].get("kind") not in ("VarDecl", "ParmVarDecl"):
                 self.fail("reference to %s" % n["referencedDecl"].get("kind"), n)
+            c = self.cached.get(n["referencedDecl"]["name"])
+            if c is not None and c["kind"] == "val":
+                # cached local: its defining expression, evaluated here (find_cached: nothing it mentions
+                # is assigned between the definition and this use)
+                self.var_term(env, n["referencedDecl"]["name"], n)        # must have been defined on this path
+                term, t = self.ex(c["rhs"], env, em)
+                if t != c["cty"]:
+                    self.fail("cached local `%s` of type %s defined by an expression of type %s" % (
+                        n["referencedDecl"]["name"], show_ct(c["cty"]), show_ct(t)), n)
+                return term, t
             return self.var_term(env, n["referencedDecl"]["name"], n)
         if k == "ArraySubscriptExpr":
             base, idx = kids(n)
+            row = self.row_base(base)
+            if row is not None:
+                # p[e2] where `p = a + e1` is a row base: the checked access a[e1 + e2] (sum formed in long)
+                if not env.vars[row["name"]].bound:
+                    self.fail("read through `%s`, which may be uninitialised here" % row["name"], n)
+                aterm, at = self.var_term(env, row["base"], n)
+                o, ot = self.ex(row["rhs"], env, em)
+                i, it = self.ex(idx, env, em)
+                if ot not in ("int", "long") or it not in ("int", "long") or at != row["cty"]:
+                    self.fail("row base `%s`: offset / index / element types" % row["name"], n)
+                ix = self.bind(em, "Int", "ladd %s %s" % (atom(o), atom(i)))
+                return self.bind(em, self.lean_ty(at[1]), "%s.rd %s" % (aterm, ix)), at[1]
             b, bt = self.buf_of(base, env, em)
             i = self.index_term(idx, env, em)
             et = bt[1]
@@ -836,12 +1022,44 @@ class Fn:
             ptys = d["param_ctys"]
             if d["extra"]:
                 self.fail("call of `%s`, which has indeterminate-local parameters" % name, n)
+        elif self.helper(name) is not None:
+            d = self.helper(name)
+            terms, written = self.call_args(n, name, args, d["writes"], d["param_ctys"], env, em)
+            comps = ([] if d["ret"] == "void" else [self.lean_ty(d["ret"])]) + [self.lean_ty(env.vars[v].cty) for v in written]
+            r = self.fresh()
+            em.add("let %s : %s ← (fun %s => show %s from do" % (
+                r, tuple_type([paren_ty(c) if len(comps) > 1 else c for c in comps]), d["binders"], d["rty"]))
+            for l in d["lines"]:
+                em.add("    " + l)
+            em.lines[-1] += ") " + " ".join(terms)
+            k = 0 if d["ret"] == "void" else 1
+            for i, v in enumerate(written):
+                em.add("let %s : %s := %s" % (mangle(v), self.lean_ty(env.vars[v].cty), proj(r, k + i, len(comps))))
+            return (proj(r, 0, len(comps)) if d["ret"] != "void" else None), d["ret"]
         else:
             self.fail("call of `%s`, which is neither translated nor in the extern table" % name, n)
         if fuel:
             self.fail("call of the unbounded-loop function `%s` outside `return %s(..)`" % (name, name), n)
         terms, written = self.call_args(n, name, args, writes, ptys, env, em)
         return self.finish_call(n, fn, ctx, terms, written, ret, monadic, env, em)
+
+    def helper(self, name):
+        """a `static` function of this file that is not in the registry: translated on demand and inlined at its
+        call sites as a Lean function applied to the arguments (no loop, no allocation, no unbounded loop; it may
+        return early).  Cached in `done` under a key that cannot clash with a registered function."""
+        key = "static %s::%s" % (self.cfg.get("file"), name)
+        if key not in self.done:
+            nodes = self.tu.funcs.get(name, [])
+            if len(nodes) != 1 or nodes[0].get("storageClass") != "static":
+                self.done[key] = None
+            else:
+                h = type(self)(self.tu, self.cfg, nodes[0], self.done)
+                loops, binders, rty, lines, ptys = h.translate()
+                if loops or h.fuel or h.owned or h.extra_params or h.outside:
+                    self.fail("static helper `%s` with a loop / allocation / branch outside the fragment" % name, nodes[0])
+                pb = binders[len(self.cfg["binders"]):].strip() if self.cfg["binders"] else binders
+                self.done[key] = dict(writes=h.writes, ret=h.ret, param_ctys=ptys, binders=pb, rty=rty, lines=lines)
+        return self.done[key]
 
     def call_args(self, n, name, args, writes, ptys, env, em):
         terms, written, seen_ptr = [], [], []
@@ -979,6 +1197,8 @@ class Fn:
                 return self.arith(op, t, cur, y, n, em)
             self.update_lvalue(lvs, env, em, f)
             return
+        if n["kind"] == "BinaryOperator" and lvs.get("kind") == "DeclRefExpr" and lvs["referencedDecl"]["name"] in self.cached:
+            return self.def_row(lvs["referencedDecl"]["name"], env, em)
         if is_ptr(t):
             a = self.alloc_rhs(rhs, env, em)
             if a is not None:
@@ -1011,12 +1231,20 @@ class Fn:
 
         def g(read, _t):
             y, ty = self.ex(rhs, env, em)
+            y, ty = self.bool_int(y, ty, t)
             if ty != t:
                 self.fail("assignment of %s to an lvalue of type %s" % (show_ct(ty), show_ct(t)), n)
             return y, False
         # C evaluates the subscripts of the target and the right-hand side in unspecified order; both are
         # side-effect free here except for failing reads — the translation takes target subscripts first
         self.update_lvalue(lvs, env, em, g)
+
+    @staticmethod
+    def bool_int(term, ty, want):
+        """the value of a comparison / `!` / `&&` / `||` stored in an `int`: 1 or 0"""
+        if ty == "bool" and want == "int":
+            return "(if %s then 1 else 0)" % term, "int"
+        return term, ty
 
     def incr(self, n, env, em):
         lv = strip_parens(kids(n)[0])
@@ -1027,14 +1255,28 @@ class Fn:
 
     # ---- statements
 
-    def stmts(self, ss, env, em):
-        for s in ss:
+    def stmts(self, ss, env, em, loop_top=False):
+        for i, s in enumerate(ss):
+            if loop_top and self.is_continue_if(s):
+                # `if (c) continue;` among the statements of a loop body: the rest of the body is its else-branch
+                return self.if_stmt(dict(kind="IfStmt", range=s.get("range", {}),
+                                         inner=[kids(s)[0], dict(kind="CompoundStmt", inner=[]),
+                                                dict(kind="CompoundStmt", inner=list(ss[i + 1:]), loop_top=True)]), env, em)
             self.stmt(s, env, em)
+
+    @staticmethod
+    def is_continue_if(s):
+        if s.get("kind") != "IfStmt" or len(kids(s)) != 2 or s.get("hasElse"):
+            return False
+        b = kids(s)[1]
+        if b.get("kind") == "CompoundStmt" and len(kids(b)) == 1:
+            b = kids(b)[0]
+        return b.get("kind") == "ContinueStmt"
 
     def stmt(self, s, env, em):
         k = s.get("kind")
         if k == "CompoundStmt":
-            return self.stmts(kids(s), env, em)
+            return self.stmts(kids(s), env, em, loop_top=bool(s.get("loop_top")))
         if k == "NullStmt":
             return
         if k == "DeclStmt":
@@ -1065,7 +1307,9 @@ class Fn:
         env.vars[name] = Var(name, t, False)
         if kids(d):
             init = kids(d)[-1]
-            if is_ptr(t):
+            if name in self.cached:
+                self.def_row(name, env, em)
+            elif is_ptr(t):
                 a = self.alloc_rhs(init, env, em)
                 if a is None:
                     self.fail("pointer initialiser other than malloc", d)
@@ -1075,6 +1319,7 @@ class Fn:
                 em.add("let %s : %s ← %s" % (mangle(name), self.lean_ty(t), a))
             else:
                 y, ty = self.ex(init, env, em)
+                y, ty = self.bool_int(y, ty, t)
                 if ty != t:
                     self.fail("initialiser of type %s for %s" % (show_ct(ty), show_ct(t)), d)
                 em.add("let %s : %s := %s" % (mangle(name), self.lean_ty(t), y))
@@ -1086,6 +1331,17 @@ class Fn:
             self.extra_params.append((p, self.lean_ty(t)))
             em.add("let %s : %s := %s" % (mangle(name), self.lean_ty(t), p))
             env.vars[name].bound = True
+
+    def def_row(self, name, env, em):
+        """definition `x = e` of a cached local / `p = a + e` of a row base (find_cached): nothing is emitted here —
+        the loads of `e` are performed (and checked) at every use of `x`, not at the definition.  A cached load whose
+        value is not used on some path (e.g. hoisted out of a loop that runs zero times) is therefore not checked
+        on that path, and that `a + e` stays inside the array is not checked where the pointer is formed, only
+        at the accesses through it."""
+        c = self.cached[name]
+        for v in self.mentioned(c["rhs"]) | ({c["base"]} if c["kind"] == "row" else set()):
+            self.var_term(env, v, None)          # everything `e` mentions has a value here
+        env.vars[name].bound = True
 
     def if_stmt(self, s, env, em):
         parts = kids(s)
@@ -1200,7 +1456,10 @@ class Fn:
         self.cur_prefix, self.top_em = lname, None
         for i, v in enumerate(accs):
             bem.add("let %s : %s := %s" % (mangle(v), acc_tys[i], proj("acc", i, len(accs))))
-        self.stmt(body, benv, bem)
+        if body.get("kind") == "CompoundStmt":
+            self.stmts(kids(body), benv, bem, loop_top=True)
+        else:
+            self.stmt(body, benv, bem)
         self.cur_prefix, self.top_em = saved_prefix, saved_top
         for v in accs:
             if not benv.vars[v].bound:
@@ -1292,6 +1551,8 @@ class Fn:
         for p in params:
             env.vars[p["name"]] = Var(p["name"], self.cty(p), True)
         pnames = [p["name"] for p in params]
+        # the cached-local normal form is switched on per file (the proofs of that file are written against it)
+        self.cached = self.find_cached(body, set(pnames)) if self.cfg.get("cache_locals") else {}
         asg = self.assigned(body)
         for p in params:
             if p["name"] in asg and not is_ptr(env.vars[p["name"]].cty):
@@ -1339,23 +1600,24 @@ class Fn:
             self.return_fuel_call(last, env, em, rt, written)
             final_ty = "M (Option %s)" % paren_ty(res_ty)
         else:
-            val = None
-            if last is not None and last.get("kind") == "ReturnStmt":
-                self.stmts(ss[:-1], env, em)
-                if kids(last):
-                    y, ty = self.ex(kids(last)[0], env, em)
+            def fin(rs, e, m):
+                val = None
+                if rs is not None and kids(rs):
+                    y, ty = self.ex(kids(rs)[0], e, m)
+                    y, ty = self.bool_int(y, ty, rt)
                     if ty != rt:
-                        self.fail("return of %s from a function returning %s" % (show_ct(ty), show_ct(rt)), last)
+                        self.fail("return of %s from a function returning %s" % (show_ct(ty), show_ct(rt)), rs)
                     val = y
-            else:
-                self.stmts(ss, env, em)
-                if rt != "void":
+                elif rt != "void":
                     self.fail("control can reach the end of a non-void function", node)
-            for v in written:
-                if not env.vars[v].bound:
-                    self.fail("`%s` has no value at the return" % v, node)
-            leak_check(env, em)
-            em.add("pure " + result_tuple(val))
+                for v in written:
+                    if not e.vars[v].bound:
+                        self.fail("`%s` has no value at the return" % v, node)
+                leak_check(e, m)
+                m.add("pure " + result_tuple(val))
+            self.tail(ss, env, em, fin)
+            if self.early and self.owned:
+                self.fail("early return in a function that allocates", node)
             final_ty = "M %s" % paren_ty(res_ty)
         binders = [x for x in [self.cfg["binders"]] if x]
         if self.fuel:
@@ -1367,6 +1629,39 @@ class Fn:
         binders += ["(%s : %s)" % pt for pt in self.extra_params]
         text = "".join(l + "\n" for l in self.loops)
         return text, " ".join(binders), final_ty, em.lines, [self.cty(p) for p in params]
+
+    @staticmethod
+    def returning(b):
+        """the statements of a branch that ends with `return`, else None"""
+        ss = kids(b) if b.get("kind") == "CompoundStmt" else [b]
+        return ss if ss and ss[-1].get("kind") == "ReturnStmt" else None
+
+    def tail(self, ss, env, em, fin):
+        """the statements up to the function's return.  `if (c) { ..; return e; }` (no else) followed by more
+        statements is `if (c) { ..; return e; } else { the rest }`: both arms end the function"""
+        for i, s in enumerate(ss):
+            if s.get("kind") == "ReturnStmt":
+                if i != len(ss) - 1:
+                    self.fail("statements after `return`", s)
+                return fin(s, env, em)
+            if s.get("kind") == "IfStmt" and len(kids(s)) == 2 and self.returning(kids(s)[1]) is not None:
+                self.early = True
+                c = self.cond(kids(s)[0], env, em)
+                saved_top = self.top_em
+                self.top_em = None
+                e1, m1, e2, m2 = env.copy(), Emit(), env.copy(), Emit()
+                self.tail(self.returning(kids(s)[1]), e1, m1, fin)
+                self.tail(ss[i + 1:], e2, m2, fin)
+                self.top_em = saved_top
+                em.add("if %s then do" % c)
+                for l in m1.lines:
+                    em.add("    " + l)
+                em.add("  else do")
+                for l in m2.lines:
+                    em.add("    " + l)
+                return
+            self.stmt(s, env, em)
+        fin(None, env, em)
 
     def tail_fuel_call(self, rs):
         if not kids(rs):
